@@ -10,14 +10,15 @@ from harness.common import f2hex, q2s, s2q, run_driver, lean_obligations
 from harness.translate import translator_obligations
 from harness.search_deriv import derivative_search
 
-MODULE = 'Ndt.Props.C01Complex'
+MODULE = 'Ndt.Props.C01Multi'
 THEOREMS = ['Ndt.dCentral_expansion', 'Ndt.dCentralEven_expansion', 'Ndt.dForward_expansion', 'Ndt.dBackward_expansion',
             'Ndt.fdRow_apply_k', 'Ndt.fdApply_on_expansion', 'Ndt.diffName_real', 'Ndt.real_step_candidates_exact',
             'Ndt.richCall_const', 'Ndt.wynnTable_const', 'Ndt.bestEstimate_const', 'Ndt.tailStage_const',
             'Ndt.derivative_exact_on_polynomials', 'Ndt.zero_order_is_f',
             'Ndt.qComplex_expansion', 'Ndt.qComplexOdd_expansion', 'Ndt.qComplexOddHigher_expansion', 'Ndt.qComplexEven_expansion',
             'Ndt.qComplexEvenHigher_expansion', 'Ndt.complex_names', 'Ndt.complex_step_candidates_exact',
-            'Ndt.derivative_exact_on_polynomials_complex']
+            'Ndt.derivative_exact_on_polynomials_complex',
+            'Ndt.multicomplex1_quadratic', 'Ndt.multicomplex2_cubic', 'Ndt.fdApply_multicomplex', 'Ndt.derivative_exact_on_polynomials_multicomplex']
 EPS = 2.0 ** -52
 C_ROUND = 4096.0
 
